@@ -156,6 +156,8 @@ def display_table(ctx, impl_path):
         for q in ex.explore(start=s0, stop=set(loops)):
             d = [c for c in q.conds if c[0][0] == 'discr' and c[1] == 'eq' and c[0][1][0] in ('deref', 'init')]
             key = d[0][2] if d else None
+            if q.end[0] == 'return' and q.ret is not None and is_call(deref_all(q.ret), 'FromResidual::from_residual'):
+                continue      # a write failed and the error is passed on: the pieces written so far are not a complete rendering
             pieces = []
             for e in q.calls():
                 if canon(e[1]).endswith('Arguments::from_str') and e[2]:
@@ -177,10 +179,18 @@ def display_table(ctx, impl_path):
                     v = deref_all(e[2][1])
                     if v[0] == 'const':
                         pieces.append(('lit', v[1]))
+                    else:
+                        # a string value written as it is: what `{}` prints for a str / String / Cow<str>
+                        pieces.append(('arg', 'new_display'))
+                elif canon(e[1]).endswith('Display::fmt') and len(e[2]) == 2 and not canon(e[1]).startswith('Arguments'):
+                    pieces.append(('arg', 'new_display'))
             if pieces:
                 table.setdefault(key, [])
                 if pieces not in table[key]:
                     table[key].append(pieces)
+    # a failed write returns early (`?`): what was written up to there is a proper prefix of a complete rendering, not a rendering
+    for key, alts in table.items():
+        table[key] = [a for a in alts if not any(a != o and len(a) < len(o) and o[:len(a)] == a for o in alts)]
     return table
 
 
@@ -378,6 +388,11 @@ def whole_input(ctx, run, rule, fn, err_variant):
         if not ok:
             # a test of the rest made by something this rule does not read (a helper, first(), a pattern on its content)
             if any(of_rest(c[0]) and c[0][0] != 'discr' for c in p.conds):
+                unread += 1
+            elif not of_rest(p.ret) and not any(of_rest(c[0]) for c in p.conds) and any(
+                    s_[0] == 'call' and any(x_[0] == 'init' and x_[1] == 1 for a_ in s_[2] for x_ in subterms(a_)) for c in p.conds for s_ in subterms(c[0])):
+                # an answer given without running the grammar at all, on a decision about the whole input made by an iterator adaptor
+                # or a helper (`input.iter().all(is_blank)`): there is no "rest" on such a path; what that decision admits is not read
                 unread += 1
             else:
                 bad += 1
